@@ -404,3 +404,114 @@ func TestClearTableWhileWriting(t *testing.T) {
 		t.Errorf("ATOMICITY v2 ClearTable||PutItem: table count %d, scan %d, index scan %d", *d2.Table.ItemCount, len(sc2.Items), len(x2.Items))
 	}
 }
+
+// every call that ends in an error gives the client's lock back: after each of them another call on the same client completes
+func TestErrorPathsReleaseTheLock(t *testing.T) {
+	within := func(what string, f func()) {
+		done := make(chan struct{})
+		go func() { defer close(done); defer func() { recover() }(); f() }()
+		select {
+		case <-done:
+		case <-time.After(3 * time.Second):
+			t.Errorf("DEADLOCK-OR-HANG after %s: a later call on the same client does not return", what)
+		}
+	}
+	missing := aws.String("nosuchtable")
+	// v2
+	c2 := newV2(t)
+	probe2 := func() {
+		c2.PutItem(ctx, &dynamodb.PutItemInput{TableName: aws.String("base"), Item: map[string]v2types.AttributeValue{"h": s2("probe")}})
+	}
+	v2calls := []struct {
+		name string
+		f    func()
+	}{
+		{"v2 ClearTable on a missing table", func() { v2.ClearTable(c2, "nosuchtable") }},
+		{"v2 PutItem on a missing table", func() { c2.PutItem(ctx, &dynamodb.PutItemInput{TableName: missing, Item: map[string]v2types.AttributeValue{"h": s2("a")}}) }},
+		{"v2 GetItem on a missing table", func() { c2.GetItem(ctx, &dynamodb.GetItemInput{TableName: missing, Key: map[string]v2types.AttributeValue{"h": s2("a")}}) }},
+		{"v2 DeleteItem on a missing table", func() { c2.DeleteItem(ctx, &dynamodb.DeleteItemInput{TableName: missing, Key: map[string]v2types.AttributeValue{"h": s2("a")}}) }},
+		{"v2 UpdateItem on a missing table", func() {
+			c2.UpdateItem(ctx, &dynamodb.UpdateItemInput{TableName: missing, Key: map[string]v2types.AttributeValue{"h": s2("a")}, UpdateExpression: aws.String("SET v = :v"),
+				ExpressionAttributeValues: map[string]v2types.AttributeValue{":v": s2("1")}})
+		}},
+		{"v2 Query on a missing table", func() {
+			c2.Query(ctx, &dynamodb.QueryInput{TableName: missing, KeyConditionExpression: aws.String("h = :h"), ExpressionAttributeValues: map[string]v2types.AttributeValue{":h": s2("a")}})
+		}},
+		{"v2 Scan on a missing table", func() { c2.Scan(ctx, &dynamodb.ScanInput{TableName: missing}) }},
+		{"v2 DescribeTable on a missing table", func() { c2.DescribeTable(ctx, &dynamodb.DescribeTableInput{TableName: missing}) }},
+		{"v2 DeleteTable on a missing table", func() { c2.DeleteTable(ctx, &dynamodb.DeleteTableInput{TableName: missing}) }},
+		{"v2 UpdateTable on a missing table", func() { c2.UpdateTable(ctx, &dynamodb.UpdateTableInput{TableName: missing}) }},
+		{"v2 CreateTable of an existing table", func() { v2.AddTable(ctx, c2, "base", "h", "") }},
+		{"v2 PutItem with a key of the wrong type", func() { c2.PutItem(ctx, &dynamodb.PutItemInput{TableName: aws.String("base"), Item: map[string]v2types.AttributeValue{"h": n2("1")}}) }},
+		{"v2 PutItem with a failing condition", func() {
+			c2.PutItem(ctx, &dynamodb.PutItemInput{TableName: aws.String("base"), Item: map[string]v2types.AttributeValue{"h": s2("probe")}, ConditionExpression: aws.String("attribute_not_exists(h)")})
+		}},
+		{"v2 PutItem with a condition that is no sentence", func() {
+			c2.PutItem(ctx, &dynamodb.PutItemInput{TableName: aws.String("base"), Item: map[string]v2types.AttributeValue{"h": s2("probe")}, ConditionExpression: aws.String("h = = h")})
+		}},
+		{"v2 Query on a missing index", func() {
+			c2.Query(ctx, &dynamodb.QueryInput{TableName: aws.String("base"), IndexName: aws.String("nosuchindex"), KeyConditionExpression: aws.String("h = :h"), ExpressionAttributeValues: map[string]v2types.AttributeValue{":h": s2("a")}})
+		}},
+		{"v2 UpdateItem with an unused value", func() {
+			c2.UpdateItem(ctx, &dynamodb.UpdateItemInput{TableName: aws.String("base"), Key: map[string]v2types.AttributeValue{"h": s2("probe")}, UpdateExpression: aws.String("SET v = :v"),
+				ExpressionAttributeValues: map[string]v2types.AttributeValue{":v": s2("1"), ":unused": s2("1")}})
+		}},
+		{"v2 BatchWriteItem with a malformed request", func() {
+			c2.BatchWriteItem(ctx, &dynamodb.BatchWriteItemInput{RequestItems: map[string][]v2types.WriteRequest{"base": {{}}}})
+		}},
+		{"v2 a call under an emulated failure", func() {
+			v2.EmulateFailure(c2, v2.FailureConditionInternalServerError)
+			c2.GetItem(ctx, &dynamodb.GetItemInput{TableName: aws.String("base"), Key: map[string]v2types.AttributeValue{"h": s2("a")}})
+			v2.EmulateFailure(c2, v2.FailureConditionNone)
+		}},
+	}
+	for _, call := range v2calls {
+		func() { defer func() { recover() }(); call.f() }()
+		within(call.name, probe2)
+	}
+	// v1
+	c1 := v1.NewClient()
+	v1.AddTable(c1, "base", "h", "")
+	probe1 := func() {
+		c1.PutItem(&v1sdk.PutItemInput{TableName: aws.String("base"), Item: map[string]*v1sdk.AttributeValue{"h": {S: aws.String("probe")}}})
+	}
+	v1calls := []struct {
+		name string
+		f    func()
+	}{
+		{"v1 ClearTable on a missing table", func() { v1.ClearTable(c1, "nosuchtable") }},
+		{"v1 PutItem on a missing table", func() { c1.PutItem(&v1sdk.PutItemInput{TableName: missing, Item: map[string]*v1sdk.AttributeValue{"h": {S: aws.String("a")}}}) }},
+		{"v1 GetItem on a missing table", func() { c1.GetItem(&v1sdk.GetItemInput{TableName: missing, Key: map[string]*v1sdk.AttributeValue{"h": {S: aws.String("a")}}}) }},
+		{"v1 DeleteItem on a missing table", func() { c1.DeleteItem(&v1sdk.DeleteItemInput{TableName: missing, Key: map[string]*v1sdk.AttributeValue{"h": {S: aws.String("a")}}}) }},
+		{"v1 Query on a missing table", func() {
+			c1.Query(&v1sdk.QueryInput{TableName: missing, KeyConditionExpression: aws.String("h = :h"), ExpressionAttributeValues: map[string]*v1sdk.AttributeValue{":h": {S: aws.String("a")}}})
+		}},
+		{"v1 Scan on a missing table", func() { c1.Scan(&v1sdk.ScanInput{TableName: missing}) }},
+		{"v1 DescribeTable on a missing table", func() { c1.DescribeTable(&v1sdk.DescribeTableInput{TableName: missing}) }},
+		{"v1 DeleteTable on a missing table", func() { c1.DeleteTable(&v1sdk.DeleteTableInput{TableName: missing}) }},
+		{"v1 UpdateTable on a missing table", func() { c1.UpdateTable(&v1sdk.UpdateTableInput{TableName: missing}) }},
+		{"v1 CreateTable of an existing table", func() { v1.AddTable(c1, "base", "h", "") }},
+		{"v1 PutItem with a key of the wrong type", func() { c1.PutItem(&v1sdk.PutItemInput{TableName: aws.String("base"), Item: map[string]*v1sdk.AttributeValue{"h": {N: aws.String("1")}}}) }},
+		{"v1 PutItem with a failing condition", func() {
+			c1.PutItem(&v1sdk.PutItemInput{TableName: aws.String("base"), Item: map[string]*v1sdk.AttributeValue{"h": {S: aws.String("probe")}}, ConditionExpression: aws.String("attribute_not_exists(h)")})
+		}},
+		{"v1 PutItem with a condition that is no sentence", func() {
+			c1.PutItem(&v1sdk.PutItemInput{TableName: aws.String("base"), Item: map[string]*v1sdk.AttributeValue{"h": {S: aws.String("probe")}}, ConditionExpression: aws.String("h = = h")})
+		}},
+		{"v1 Query on a missing index", func() {
+			c1.Query(&v1sdk.QueryInput{TableName: aws.String("base"), IndexName: aws.String("nosuchindex"), KeyConditionExpression: aws.String("h = :h"), ExpressionAttributeValues: map[string]*v1sdk.AttributeValue{":h": {S: aws.String("a")}}})
+		}},
+		{"v1 BatchWriteItem with a malformed request", func() {
+			c1.BatchWriteItem(&v1sdk.BatchWriteItemInput{RequestItems: map[string][]*v1sdk.WriteRequest{"base": {{}}}})
+		}},
+		{"v1 a call under an emulated failure", func() {
+			v1.EmulateFailure(c1, v1.FailureConditionInternalServerError)
+			c1.GetItem(&v1sdk.GetItemInput{TableName: aws.String("base"), Key: map[string]*v1sdk.AttributeValue{"h": {S: aws.String("a")}}})
+			v1.EmulateFailure(c1, v1.FailureConditionNone)
+		}},
+	}
+	for _, call := range v1calls {
+		func() { defer func() { recover() }(); call.f() }()
+		within(call.name, probe1)
+	}
+}
